@@ -470,3 +470,253 @@ mod c13_channel {
         run_suite("c13_channel", generate, exec);
     }
 }
+
+// ------------------------------------------------------------------------------------------------
+// C13 — isolation "between steps, peers and shards" under TestWorld<WithShards<2>>: seven channel
+// classes sharing the same gates and record ids, each with its own payload, all exchanged
+// concurrently.   Request:  c13.iso <active> <read_size> <size> <i|s<n>> <op,…>
+//   channel classes <c>:  0 = MPC, shard 0, H1 -> H2      1 = MPC, shard 0, H1 -> H3
+//                         2 = MPC, shard 0, H3 -> H2      3 = MPC, shard 1, H1 -> H2
+//                         4 = shard channel on H1, shard 0 -> shard 1
+//                         5 = shard channel on H1, shard 1 -> shard 0
+//                         6 = shard channel on H2, shard 0 -> shard 1
+//   ops:  s<c>.<g>.<i>  send record i on gate g of class c (payload c g i)
+//         r<c>.<g>.<i>  c <= 3: `MpcReceivingEnd::receive(i)`;  c >= 4: take the next <i> records of the
+//                       `ShardReceivingEnd` stream (FIFO; one such op per shard channel)
+//   response per op: ok | err:TooManyRecords | <hex> | eos | <hex>+<hex>+… (`-` = none)
+// ------------------------------------------------------------------------------------------------
+mod c13_iso {
+    use std::{future::Future, num::NonZeroUsize, pin::Pin};
+
+    use futures::{StreamExt, future::join_all};
+    use generic_array::{ArrayLength, GenericArray};
+    use typenum::{U3, U8};
+
+    use super::{
+        super::GatewayConfig,
+        c13_common::C13Msg,
+        c13_config::parse_total,
+    };
+    use crate::{
+        helpers::{ChannelId, Error, Role, TotalRecords},
+        ipa_verif::proto::*,
+        protocol::{Gate, RecordId},
+        sharding::ShardIndex,
+        test_fixture::{TestWorld, TestWorldConfig, WithShards},
+        utils::NonZeroU32PowerOfTwo,
+    };
+
+    pub fn payload(c: usize, g: usize, i: usize, sz: usize) -> Vec<u8> {
+        (0..sz).map(|k| ((c * 53 + g * 131 + i * 17 + k * 29 + 7) % 256) as u8).collect()
+    }
+
+    /// (role, own shard, peer role / peer shard)
+    fn class(c: usize) -> (Role, usize, Role, usize) {
+        match c {
+            0 => (Role::H1, 0, Role::H2, 0),
+            1 => (Role::H1, 0, Role::H3, 0),
+            2 => (Role::H3, 0, Role::H2, 0),
+            3 => (Role::H1, 1, Role::H2, 1),
+            4 => (Role::H1, 0, Role::H1, 1),
+            5 => (Role::H1, 1, Role::H1, 0),
+            6 => (Role::H2, 0, Role::H2, 1),
+            _ => panic!("harness: bad channel class {c}"),
+        }
+    }
+
+    async fn run_script<N: ArrayLength>(active: usize, read_size: usize, total: TotalRecords, script: &str) -> String {
+        let active_p2 = NonZeroU32PowerOfTwo::try_from(active).expect("harness: active must be a power of two");
+        let world: TestWorld<WithShards<2>> = TestWorld::with_shards(TestWorldConfig {
+            gateway_config: GatewayConfig {
+                active: active_p2,
+                read_size: NonZeroUsize::new(read_size).unwrap(),
+                ..Default::default()
+            },
+            ..Default::default()
+        });
+        let gate = |g: usize| Gate::from(format!("verif/g{g}").as_str());
+        let sh = |s: usize| ShardIndex::from(u32::try_from(s).unwrap());
+        let mut futs: Vec<Pin<Box<dyn Future<Output = String> + '_>>> = vec![];
+        for op in script.split(',') {
+            let f: Vec<usize> = op[1..].split('.').map(|x| x.parse().unwrap()).collect();
+            let (c, g, i) = (f[0], f[1], f[2]);
+            let (role, shard, peer_role, peer_shard) = class(c);
+            match (op.as_bytes()[0], c <= 3) {
+                (b's', true) => {
+                    let end = world
+                        .gateway(role, sh(shard))
+                        .get_mpc_sender::<C13Msg<N>>(&ChannelId::new(peer_role, gate(g)), total, active_p2);
+                    futs.push(Box::pin(async move {
+                        let m = C13Msg::<N>(GenericArray::try_from_iter(payload(c, g, i, N::USIZE)).unwrap());
+                        match end.send(RecordId::from(i), m).await {
+                            Ok(()) => "ok".to_string(),
+                            Err(Error::TooManyRecords { .. }) => "err:TooManyRecords".to_string(),
+                            Err(e) => format!("err:{e}"),
+                        }
+                    }));
+                }
+                (b's', false) => {
+                    let end = world
+                        .gateway(role, sh(shard))
+                        .get_shard_sender::<C13Msg<N>>(&ChannelId::new(sh(peer_shard), gate(g)), total);
+                    futs.push(Box::pin(async move {
+                        let m = C13Msg::<N>(GenericArray::try_from_iter(payload(c, g, i, N::USIZE)).unwrap());
+                        match end.send(RecordId::from(i), m).await {
+                            Ok(()) => "ok".to_string(),
+                            Err(Error::TooManyRecords { .. }) => "err:TooManyRecords".to_string(),
+                            Err(e) => format!("err:{e}"),
+                        }
+                    }));
+                }
+                (b'r', true) => {
+                    // the receiver of class c lives on the PEER helper, same shard, and names the sender
+                    let end = world
+                        .gateway(peer_role, sh(peer_shard))
+                        .get_mpc_receiver::<C13Msg<N>>(&ChannelId::new(role, gate(g)));
+                    futs.push(Box::pin(async move {
+                        match end.receive(RecordId::from(i)).await {
+                            Ok(m) => hex(&m.0),
+                            Err(Error::EndOfStream { .. }) => "eos".to_string(),
+                            Err(e) => format!("err:{e}"),
+                        }
+                    }));
+                }
+                (b'r', false) => {
+                    let end = world
+                        .gateway(peer_role, sh(peer_shard))
+                        .get_shard_receiver::<C13Msg<N>>(&ChannelId::new(sh(shard), gate(g)));
+                    futs.push(Box::pin(async move {
+                        let items: Vec<_> = end.take(i).collect().await;
+                        let v: Vec<String> = items
+                            .into_iter()
+                            .map(|r| match r {
+                                Ok(m) => hex(&m.0),
+                                Err(e) => format!("err:{e}"),
+                            })
+                            .collect();
+                        if v.is_empty() { "-".to_string() } else { v.join("+") }
+                    }));
+                }
+                _ => panic!("harness: bad op {op}"),
+            }
+        }
+        let res = join_all(futs).await;
+        res.join(";")
+    }
+
+    pub fn exec(req: &str) -> String {
+        let t: Vec<&str> = req.split(' ').collect();
+        assert_eq!(t[0], "c13.iso");
+        let active: usize = t[1].parse().unwrap();
+        let read_size: usize = t[2].parse().unwrap();
+        let sz: usize = t[3].parse().unwrap();
+        let total = parse_total(t[4]);
+        let script = t[5].to_string();
+        static TIMEOUTS: std::sync::atomic::AtomicUsize = std::sync::atomic::AtomicUsize::new(0);
+        let secs = if TIMEOUTS.load(std::sync::atomic::Ordering::Relaxed) >= 2 { 1 } else { 5 };
+        let r = match sz {
+            3 => block_on_timeout(secs, run_script::<U3>(active, read_size, total, &script)),
+            8 => block_on_timeout(secs, run_script::<U8>(active, read_size, total, &script)),
+            n => panic!("harness: unsupported message size {n}"),
+        };
+        match r {
+            Ok(s) => s,
+            Err(e) => {
+                TIMEOUTS.fetch_add(1, std::sync::atomic::Ordering::Relaxed);
+                e
+            }
+        }
+    }
+
+    /// `classes` × gates 0..ng: n records each, sends and receives of all channels interleaved.
+    fn script(rng: &mut Rng, classes: &[usize], ng: usize, n: usize, specified: bool, mode: usize) -> String {
+        let mut per_chan: Vec<Vec<String>> = vec![];
+        for &c in classes {
+            for g in 0..ng {
+                let mut s: Vec<usize> = (0..n).collect();
+                let mut r: Vec<usize> = (0..n).collect();
+                match mode % 3 {
+                    0 => {}
+                    1 => s.reverse(),
+                    _ => {
+                        rng.shuffle(&mut s);
+                        rng.shuffle(&mut r);
+                    }
+                }
+                let mut mine: Vec<String> = s.iter().map(|i| format!("s{c}.{g}.{i}")).collect();
+                if c <= 3 {
+                    let recvs: Vec<String> = r.iter().map(|i| format!("r{c}.{g}.{i}")).collect();
+                    if (mode / 3) % 2 == 0 {
+                        mine.extend(recvs);
+                    } else {
+                        let mut v = recvs;
+                        v.extend(mine);
+                        mine = v;
+                    }
+                    if specified && mode % 2 == 0 {
+                        mine.push(format!("r{c}.{g}.{n}")); // past the end
+                    }
+                } else {
+                    let at = if (mode / 3) % 2 == 0 { mine.len() } else { 0 };
+                    mine.insert(at, format!("r{c}.{g}.{n}"));
+                }
+                if specified {
+                    mine.push(format!("s{c}.{g}.{}", n + rng.usize_below(2))); // beyond the total
+                }
+                per_chan.push(mine);
+            }
+        }
+        // round-robin interleaving of all channels
+        let mut ops = vec![];
+        let mut its: Vec<_> = per_chan.into_iter().map(Vec::into_iter).collect();
+        loop {
+            let mut any = false;
+            for it in &mut its {
+                if let Some(x) = it.next() {
+                    ops.push(x);
+                    any = true;
+                }
+            }
+            if !any {
+                break;
+            }
+        }
+        ops.join(",")
+    }
+
+    pub fn generate(rng: &mut Rng, thorough: bool) -> Vec<String> {
+        let mut out = vec![];
+        let all: Vec<usize> = (0..7).collect();
+        // every class alone, pairs that differ only in the peer / only in the shard / only in the gate, all together
+        for (a, rd, sz, n) in [(2usize, 1usize, 3usize, 1usize), (2, 3, 3, 2), (2, 4096, 8, 5), (4, 16, 3, 9), (16, 8, 8, 20)] {
+            for c in 0..7 {
+                out.push(format!("c13.iso {a} {rd} {sz} s{n} {}", script(rng, &[c], 1, n, true, c)));
+            }
+            for (k, cl) in [vec![0usize, 1], vec![0, 2], vec![0, 3], vec![4, 5], vec![4, 6], vec![0, 4], vec![3, 5, 6]].iter().enumerate() {
+                out.push(format!("c13.iso {a} {rd} {sz} s{n} {}", script(rng, cl, 2, n, true, k)));
+                out.push(format!("c13.iso {a} {rd} {sz} i {}", script(rng, cl, 1, n, false, k + 1)));
+            }
+            out.push(format!("c13.iso {a} {rd} {sz} s{n} {}", script(rng, &all, 2, n, true, 2)));
+            out.push(format!("c13.iso {a} {rd} {sz} i {}", script(rng, &all, 2, n, false, 5)));
+        }
+        for k in 0..(if thorough { 600 } else { 60 }) {
+            let a = *rng.pick(&[2usize, 4, 16]);
+            let sz = *rng.pick(&[3usize, 8]);
+            let rd = *rng.pick(&[1usize, 3, 8, 64, 4096]);
+            let n = 1 + rng.usize_below(3 * a);
+            let specified = rng.below(3) != 0;
+            let mut cl = all.clone();
+            rng.shuffle(&mut cl);
+            cl.truncate(2 + rng.usize_below(5));
+            let tot = if specified { format!("s{n}") } else { "i".to_string() };
+            let mode = rng.usize_below(6);
+            out.push(format!("c13.iso {a} {rd} {sz} {tot} {}", script(rng, &cl, 1 + k % 2, n, specified, mode)));
+        }
+        out
+    }
+
+    #[test]
+    fn verif_c13_iso() {
+        run_suite("c13_iso", generate, exec);
+    }
+}
